@@ -115,9 +115,10 @@ func (e *Engine) rootsFor(prop string) (jobs []rootJob, problems []string) {
 		if fc.Trusted != "" {
 			continue
 		}
-		fn := e.funcByShort[shortPkg(fc.PkgPath)+"."+fc.Key]
+		key := strings.SplitN(k, " ", 2)[1]
+		fn := e.funcByShort[shortPkg(fc.PkgPath)+"."+key]
 		if fn == nil {
-			problems = append(problems, fmt.Sprintf("anchor-missing: contract %s:%d names function %s which does not exist", shortFile(fc.File), fc.Line, fc.Key))
+			problems = append(problems, fmt.Sprintf("anchor-missing: contract %s:%d names function %s which does not exist", shortFile(fc.File), fc.Line, key))
 			continue
 		}
 		addJob(rootJob{fn: fn, fc: fc, reason: "contract"})
@@ -130,6 +131,9 @@ func (e *Engine) rootsFor(prop string) (jobs []rootJob, problems []string) {
 	for _, k := range keys {
 		fc := e.contracts.Ifaces[k]
 		if prop != "" && !contractHasTag(fc, prop) {
+			continue
+		}
+		if fc.Abstract != "" {
 			continue
 		}
 		parts := strings.SplitN(fc.Key, ".", 2)
@@ -256,6 +260,11 @@ func runVerify(repo, verif string, args []string) int {
 	discharge(res.obs, solveOpts{timeoutS: 20, dir: tmp, jobs: 16})
 	for _, r := range res.reports {
 		fmt.Printf("== %s: %d obligations, %d exits (+%d panic), %d assertions %s %s\n", r.Func, r.Obligations, r.Exits, r.PanicExits, r.Asserts, r.Error, r.Unsupported)
+		if all {
+			for _, a := range r.Assumed {
+				fmt.Println("     assumed:", a)
+			}
+		}
 	}
 	fails := 0
 	for _, o := range res.obs {
